@@ -242,3 +242,19 @@ func Install(s *Schedule, rec *Recorder) {
 
 // Uninstall restores native map order.
 func Uninstall() { zzsim.MapOrder = nil }
+
+// RandomStable draws a schedule whose decisions do not depend on how often a
+// site has been visited before (sorted / reversed only), so that two
+// executions with different histories can run under "the same" map order.
+func RandomStable(t *tape.Tape) *Schedule {
+	s := Random(t)
+	if s.Default != Sorted && s.Default != "" {
+		s.Default = Reversed
+	}
+	for k, m := range s.Sites {
+		if m != Sorted {
+			s.Sites[k] = Reversed
+		}
+	}
+	return s
+}
